@@ -262,7 +262,8 @@ func checkC13(r *vt.Run) {
 			c13Univ("2uuid-x-tag-x-1..3", 2, []string{"", "tag_a"}, []int64{1, 2, 3}),
 			c13Univ("2uuid-x-1..6", 2, []string{""}, []int64{1, 2, 3, 4, 5, 6}),
 		)
-	} else {
+	}
+	if !r.Thorough() || r.Replay != nil { // (a replay must know the universes of both tiers)
 		universes = append(universes, c13Univ("2uuid-x-tag-x-1..2", 2, []string{"", "tag_a"}, []int64{1, 2}),
 			c13Univ("3uuid-x-1..3", 3, []string{""}, []int64{1, 2, 3}))
 	}
